@@ -79,6 +79,6 @@ def desired_inner_inv(L, old, G, V):
 LOOPS = {
     ("mysensors.handler", "handle_smartsleep", 1): Loop(desired_outer_inv, ghosts=["sent", "setcount", "setpay", "setjobs"]),
     ("mysensors.handler", "handle_smartsleep", 2): Loop(desired_inner_inv, ghosts=["sent", "setcount", "setpay", "setjobs"]),
-    ("mysensors.sensor", "Sensor.init_smart_sleep_mode", 0): Loop(init_inv, modifies=["sensors.new_state"]),
-    ("mysensors.handler", "handle_smartsleep", 0): Loop(flush_queue_inv, modifies=["sensors.queue"], ghosts=["sent", "rawjobs"]),
+    ("mysensors.sensor", "Sensor.init_smart_sleep_mode", 0): Loop(init_inv, modifies=["sensors.new_state"], rows={"sensors.new_state": "self"}),
+    ("mysensors.handler", "handle_smartsleep", 0): Loop(flush_queue_inv, modifies=["sensors.queue"], rows={"sensors.queue": "sensor"}, ghosts=["sent", "rawjobs"]),
 }
